@@ -221,6 +221,26 @@ def _ser_scale_episodes(g):
             g.emit("dig %s" % o)
             g.emit("wf %s" % o)
         g.count("ser:refresh-cow-working-copy")
+    # decoded bitmaps with SEVERAL IDENTICAL chunks (completely full run chunks, equal array chunks, equal bitmap chunks): an in-place
+    # edit of the first (then of a middle one) must not show in the others — the chunks of a decoded bitmap are separate objects
+    for conts in ("R:0+65535", "A:1,5,9,300", "B:32768:5555555555555555*1024"):
+        o = g.fresh("idc")
+        g.emit("mkrepr %s cow=0;%s" % (o, ";".join("%d:%s" % (k, conts) for k in (3, 4, 9, 10))))
+        g.emit("ser %s" % o)
+        for entry in ENTRIES:
+            if entry in ("must", "mustck"):
+                continue
+            for reuse in ("", " reuse"):
+                y = g.fresh("idc")
+                if reuse:
+                    g.emit("of %s 7 70000" % y)
+                g.emit("rd %s %s %s%s" % (y, entry, o, reuse))
+                g.emit("rem %s %d" % (y, 3 * 65536 + 5)); g.emit("dig %s" % y)
+                g.emit("remr %s %d %d" % (y, 9 * 65536 + 1, 9 * 65536 + 9)); g.emit("dig %s" % y)
+                g.emit("add %s %d" % (y, 4 * 65536 + 2)); g.emit("flip %s %d %d" % (y, 10 * 65536, 10 * 65536 + 3)); g.emit("dig %s" % y)
+                g.emit("wf %s" % y)
+                g.emit("dig %s" % o)
+        g.count("ser:identical-chunks-edited-after-decode")
     # run chunks around the largest run count the library keeps as runs (2+4*runs < 8224: up to 2055 runs), alone and beside other
     # chunks, through every entry point and into a used receiver
     for n in (2040, 2047, 2048, 2049, 2050, 2053, 2055, 2056):
